@@ -167,6 +167,10 @@ def _check_interp(idata: dict, z: str):
     keys = idata.keys()
     if not "vi" in keys or not "io" in keys or not z in keys:
         raise ValueError("interpolation data must contain vi, io and " + z)
+    for k, dim in (("vi", 1), ("io", 1), (z, 2)):
+        arr = np.asarray(idata[k])
+        if arr.ndim < dim or not np.issubdtype(arr.dtype, np.number):
+            raise ValueError("interpolation data must be numeric lists")
     if not np.all(np.diff(idata["io"]) > 0):
         raise ValueError("io values must be monotonic increasing")
     vsh = np.array(idata["vi"]).shape
